@@ -11,6 +11,7 @@ import (
 	"os/exec"
 	"sort"
 	"strings"
+	"syscall"
 	"testing"
 	"time"
 
@@ -591,9 +592,10 @@ func c16Readiness() *evid.Fail {
 	defer out.Close()
 	cmd := exec.Command(bin, "--bind", bind, "--contact-points", cl.HostIP(0), "--port", fmt.Sprint(cl.Port), "--health-check", "--http-bind", httpBind, "--readiness-timeout", "300ms",
 		"--heartbeat-interval", "100ms", "--idle-timeout", "300ms", "--connect-timeout", "300ms")
+	cmd.SysProcAttr = &syscall.SysProcAttr{Pdeathsig: syscall.SIGKILL} // never outlive the test process
 	cmd.Env = []string{"PATH=/usr/bin:/bin", "HOME=/tmp"}
 	cmd.Stdout, cmd.Stderr = out.File(), out.File()
-	if err := cmd.Start(); err != nil {
+	if err := startChild(cmd); err != nil {
 		return evid.Failf("harness-start", "%v", err)
 	}
 	done := make(chan struct{})
@@ -696,7 +698,7 @@ func TestC16(t *testing.T) {
 		return c
 	}, c16BackoffCheck)
 
-	runProp(t, rec, "healing", perShard(evid.Pick(120, 3000)), func(rt *rapid.T) c16Case {
+	runProp(t, rec, "healing", perShard(evid.Pick(160, 8000)), func(rt *rapid.T) c16Case {
 		c := c16Gen(rt)
 		var labels []string
 		membership, fault := false, false
